@@ -147,7 +147,7 @@ class Exec(ExprMixin, CallMixin):
         args = fi.node.args
         names = [a.arg for a in args.posonlyargs + args.args + args.kwonlyargs]
         for nm in names:
-            if nm == "self" and fi.kind == "method":
+            if nm == "self" and fi.kind in ("method", "property"):
                 cls = family_cls or fi.cls
                 v = VRef(cls, z3.Int("self"), False)
                 st.pc.append(v.e > 0)
@@ -748,7 +748,7 @@ class Exec(ExprMixin, CallMixin):
                         names.add(b.id)
         return names
 
-    LIB_FRAMES = {"read": ["pos"], "update": ["absorbed"]}  # heap effects of library stubs, by method name
+    LIB_FRAMES = {"read": ["pos"], "update": ["absorbed"], "_write_xml_element_to_file": ["written"], "_write_xml_string_to_file": ["raw"], "write": ["raw"]}  # heap effects of library stubs, by method name
     MUTATORS = {"append", "extend", "sort", "add", "discard", "update", "pop", "clear", "remove", "insert"}
 
     def written_fields(self, stmts, st):
@@ -773,6 +773,8 @@ class Exec(ExprMixin, CallMixin):
                             out.add(b.attr)
                     if isinstance(n.func, ast.Attribute) and n.func.attr in self.LIB_FRAMES:
                         out.update(self.LIB_FRAMES[n.func.attr])
+                    if isinstance(n.func, ast.Name) and n.func.id in self.LIB_FRAMES:
+                        out.update(self.LIB_FRAMES[n.func.id])
                     fr = self.static_callee_frame(n, st)
                     if fr is None:
                         pass
